@@ -986,11 +986,11 @@ func (r *Raft) AppendEntries(request *AppendEntriesRequest, response *AppendEntr
 			r.logger.Fatalf("failed to truncate log: %v", err)
 		}
 
-		// Fall back to the committed configuration if the current one is
-		// truncated. This is necessary since a partitioned leader may have
-		// received a membership change request.
+		// Fall back to the most recent configuration that is left in the log if the
+		// current one is truncated. This is necessary since a partitioned leader may
+		// have received a membership change request.
 		if entry.Index <= r.configuration.Index {
-			r.nextConfiguration(r.committedConfiguration)
+			r.nextConfiguration(r.configurationBefore(entry.Index))
 		}
 
 		toAppend = request.Entries[i:]
@@ -999,6 +999,23 @@ func (r *Raft) AppendEntries(request *AppendEntriesRequest, response *AppendEntr
 
 	if err := r.log.AppendEntries(toAppend); err != nil {
 		r.logger.Fatalf("failed to append entries to log: %v", err)
+	}
+
+	// A configuration is in force from the moment it is in the log, not from the moment it
+	// is applied: a node that keeps counting votes against a configuration that is two
+	// membership changes behind the one in its log can be elected by a group that does not
+	// intersect the majority the current leader relies on.
+	for _, entry := range toAppend {
+		if entry.EntryType != ConfigurationEntry {
+			continue
+		}
+		// A configuration that cannot be decoded is reported when it is applied.
+		configuration, err := r.transport.DecodeConfiguration(entry.Data)
+		if err != nil {
+			r.logger.Warnf("failed to decode appended configuration: index = %d, error = %v", entry.Index, err)
+			continue
+		}
+		r.nextConfiguration(&configuration)
 	}
 
 	// Only entries up to the last one covered by this request are known to match the
@@ -1918,8 +1935,37 @@ func (r *Raft) applyConfiguration(configurationData []byte) {
 	if r.committedConfiguration != nil && configuration.Index <= r.committedConfiguration.Index {
 		return
 	}
-	r.nextConfiguration(&configuration)
+	// A follower has had this configuration in force since it appended it and may already
+	// be using a more recent one; a leader waits for the commitment of a removal.
+	if configuration.Index > r.configuration.Index {
+		r.nextConfiguration(&configuration)
+	}
 	r.committedConfiguration = &configuration
+}
+
+// configurationBefore returns the most recent configuration that the log contains before
+// the provided index, or the committed configuration if there is no more recent one.
+func (r *Raft) configurationBefore(index uint64) *Configuration {
+	for index--; index > r.lastIncludedIndex; index-- {
+		if r.committedConfiguration != nil && index <= r.committedConfiguration.Index {
+			break
+		}
+		entry, err := r.log.GetEntry(index)
+		if err != nil {
+			r.logger.Fatalf("failed to get entry from log: error = %v", err)
+		}
+		if entry.EntryType != ConfigurationEntry {
+			continue
+		}
+		// A configuration that cannot be decoded is reported when it is applied.
+		if configuration, err := r.transport.DecodeConfiguration(entry.Data); err == nil {
+			return &configuration
+		}
+	}
+	if r.committedConfiguration == nil {
+		return &Configuration{}
+	}
+	return r.committedConfiguration
 }
 
 // readOnlyLoop is a long running loop that applies read-only operations to the state machine.
@@ -2022,6 +2068,14 @@ func (r *Raft) becomeFollower(leaderID string, term uint64) {
 	// Cancel a pending membership change: whether it commits is now up to another leader.
 	respond(r.configurationResponseCh, Configuration{}, ErrNotLeader)
 	r.configurationResponseCh = nil
+
+	// A leader keeps the old configuration in force until the removal of a server is
+	// committed. Any other node uses the most recent configuration in its log.
+	if r.configuration != nil {
+		if latest := r.configurationBefore(r.log.NextIndex()); latest.Index > r.configuration.Index {
+			r.nextConfiguration(latest)
+		}
+	}
 
 	r.logger.Infof("entered the follower state: term = %d", r.currentTerm)
 }
